@@ -182,12 +182,14 @@ func (d *OrderedDaemon) runBackgroundWorker(name string, backgroundWorker Worker
 // Use order to define in which shutdown order this particular
 // background worker is shut down (higher = earlier).
 func (d *OrderedDaemon) BackgroundWorker(name string, handler WorkerFunc, order ...int) error {
+	d.lock.Lock()
+	defer d.lock.Unlock()
+
+	// check under the lock: otherwise a shutdown that starts in between does not see (and therefore never stops) the
+	// new worker, or has already cleared the maps
 	if d.IsStopped() {
 		return ErrDaemonAlreadyStopped
 	}
-
-	d.lock.Lock()
-	defer d.lock.Unlock()
 
 	exWorker, workerExistsAlready := d.workers[name]
 	if workerExistsAlready {
@@ -245,13 +247,14 @@ func (d *OrderedDaemon) DebugLogger(logger log.Logger) {
 
 // Start starts the daemon.
 func (d *OrderedDaemon) Start() {
-	// do not allow restarts
+	d.lock.Lock()
+	defer d.lock.Unlock()
+
+	// do not allow restarts (checked under the lock: otherwise a shutdown in between finds the daemon not running,
+	// returns, and the workers started afterwards are never stopped)
 	if d.IsStopped() {
 		return
 	}
-
-	d.lock.Lock()
-	defer d.lock.Unlock()
 
 	if !d.IsRunning() {
 		d.running.Store(true)
@@ -298,7 +301,10 @@ func (d *OrderedDaemon) shutdown() {
 		d.logger.LogDebugf("Shutting down ...")
 	}
 
+	// the flag is set under the lock, so that registrations and Start either complete before or are refused
+	d.lock.Lock()
 	d.stopped.Store(true)
+	d.lock.Unlock()
 	d.stoppedCtxCancel()
 	if !d.IsRunning() {
 		return
